@@ -132,30 +132,40 @@ def build():
         return NotImplemented
 
     def anyall(m, name, ge, env):
-        src = ast.unparse(ge)
+        """The four generator expressions of the shape predicates, recognised by *structure* (callee applied to the loop variable, the
+        other arguments, the filter), not by the names of locals: the iterated expression is evaluated and the opaque induction-hypothesis
+        predicate is applied to that sequence term."""
+        if len(ge.generators) != 1 or not isinstance(ge.generators[0].target, ast.Name):
+            return None
+        gen = ge.generators[0]
+        tv = gen.target.id
+        el, cmp_src = ge.elt, None
+        if isinstance(el, ast.Compare) and len(el.ops) == 1 and isinstance(el.ops[0], ast.Eq):
+            el, cmp_src = el.left, ast.unparse(el.comparators[0])
+        if not (isinstance(el, ast.Call) and isinstance(el.func, ast.Name)):
+            return None
+        callee, a_src, ifs = el.func.id, [ast.unparse(x) for x in el.args], [ast.unparse(x) for x in gen.ifs]
         saved = m.env
         try:
             m.env = dict(env)
-            t = m.env["type_"]
-            same_args = lambda: m.ctx.check(m.equal(m.env["args"], STY.wrap(args(t.term))), f"{m.contract.key}/args-are-the-annotation's", "model") if "args" in m.env else None
-            if src == "(has_check_type_in_type(t, check_type) for t in get_args(type_))" and name == "any":
-                return VBool(any_mentions(args(t.term)))
-            if src in ("(issubclass(unwrap_newtype(t), node_base_type) for t in args if t is not type(None))",) and name == "all":
-                same_args()
+            it = m.eval(gen.iter)
+            sv = m.seq_value(it) if not isinstance(it, VSeq) else it
+            if sv is None or sv.sort != STY:
+                return None
+            if name == "any" and callee == "has_check_type_in_type" and a_src == [tv, "check_type"] and not ifs and cmp_src is None:
+                return VBool(any_mentions(sv.term))
+            if name == "all" and callee == "issubclass" and a_src == [f"unwrap_newtype({tv})", "node_base_type"] and ifs == [f"{tv} is not type(None)"] and cmp_src is None:
                 # the member test may raise TypeError for a non-class member: then the caller's `except TypeError` answers NON_NODE_TYPE,
                 # which is what `False` gives as well
-                return VBool(all_members_nodes(args(t.term)))
-            if src == "(_is_valid_child_field_type(t, node_base_type, False) == InvalidTypeReason.OK for t in args)" and name == "all":
-                same_args()
+                return VBool(all_members_nodes(sv.term))
+            if name == "all" and callee == "_is_valid_child_field_type" and a_src == [tv, "node_base_type", "False"] and not ifs and cmp_src == "InvalidTypeReason.OK":
                 # a member's check may raise TypeError; by the callee's exceptional postcondition that member is not a child shape
                 if m.ctx.branch(z3.Bool(fresh_name("member_check_raises"))):
-                    m.ctx.assume(z3.Not(all_child_noseq(args(t.term))))
+                    m.ctx.assume(z3.Not(all_child_noseq(sv.term)))
                     raise RaiseSig(VExc("TypeError"))
-                return VBool(all_child_noseq(args(t.term)))
-            if src == "(is_valid_property_type(t) for t in agrs)" and name == "all":
-                return VBool(all_prop_ok(args(t.term)))
-            if src == "(is_valid_property_type(t) for t in get_args(type_))" and name == "all":
-                return VBool(all_prop_ok(args(t.term)))
+                return VBool(all_child_noseq(sv.term))
+            if name == "all" and callee == "is_valid_property_type" and a_src == [tv] and not ifs and cmp_src is None:
+                return VBool(all_prop_ok(sv.term))
         finally:
             m.env = saved
         return None
